@@ -99,13 +99,37 @@ def tuple_funcs(repo):
     return out
 
 
+def value_wrappers(root, node) -> set:
+    """ids of `node` and of the nodes of `root` that carry it on unchanged in rank: phi / ifexp alternatives,
+    the base of a masked store, loop carried values, no-grad wrappers"""
+    W = {node.id}
+    order = list(vg.walk(root))
+    changed = True
+    while changed:
+        changed = False
+        for n in order:
+            if n.id in W:
+                continue
+            if n.op in ("phi", "ifexp") and any(isinstance(a, vg.S) and a.id in W for a in n.args[1:]):
+                W.add(n.id); changed = True
+            elif n.op == "store" and isinstance(n.args[0], vg.S) and n.args[0].id in W:
+                W.add(n.id); changed = True
+            elif n.op in ("loop", "nograd", "loopvar") and any(isinstance(a, vg.S) and a.id in W for a in n.args):
+                W.add(n.id); changed = True
+            elif n.op == "meth" and n.args[1] in ("clone", "detach", "contiguous", "float", "to") and isinstance(n.args[0], vg.S) and n.args[0].id in W:
+                W.add(n.id); changed = True
+    return W
+
+
 def rank_sensitive_consumer(root, node) -> bool:
     """Does a dimension-less squeeze reach an operation whose meaning depends on the rank?"""
     SENS = {"torch.cat", "torch.stack", "torch.bmm", "torch.matmul", "torch.concat", "einops.rearrange", "einops.repeat", "einops.reduce"}
+    REDUCE = {"sum", "mean", "max", "min", "amax", "amin", "argmax", "argmin", "prod", "std", "var", "softmax", "log_softmax", "cumsum", "any", "all", "norm", "topk", "sort", "unsqueeze", "squeeze", "flatten", "split", "chunk", "unbind", "select", "index_select", "narrow"}
+    W = value_wrappers(root, node)
     for n in vg.walk(root):
         kids = list(vg.children(n))
-        direct = any(k is node for k in kids) or any(node in list(vg.children(k)) for k in kids if k.op in ("tuple", "list"))
-        if not direct:
+        direct = any(k.id in W for k in kids) or any(c.id in W for k in kids if k.op in ("tuple", "list") for c in vg.children(k))
+        if not direct or n.id in W:
             continue
         fn = nf._fn(n)
         if fn in SENS or n.op == "@" or (n.op == "meth" and n.args[1] in ("gather", "scatter", "scatter_", "bmm", "matmul", "expand", "view", "reshape", "permute", "transpose")):
@@ -114,6 +138,13 @@ def rank_sensitive_consumer(root, node) -> bool:
             return True
         if n.op == "meth" and n.args[1] in ("dim", "size"):
             return True
+        # a reduction / axis operation of the squeezed value that names a NON-NEGATIVE axis: the axis numbering shifts when the batch axis vanishes
+        if n.op == "meth" and n.args[1] in REDUCE and isinstance(n.args[0], vg.S) and n.args[0].id in W:
+            for x in n.args[2:]:
+                d = x.args[1] if isinstance(x, vg.S) and x.op == "kw" and x.args[0] in ("dim", "axis") else (x if isinstance(x, vg.S) and x.op == "const" else None)
+                if isinstance(d, vg.S) and d.op == "const" and isinstance(d.args[0], int) and not isinstance(d.args[0], bool) and d.args[0] >= 0:
+                    return True
+                break
     return False
 
 
